@@ -29,7 +29,10 @@ m = {
               "source_commits": [], "add_only": True},
     "engines": [{"name": "coq-model+correspondence", "path": "/verif/check",
                  "serves_properties": [c["property_id"] for c in checks],
-                 "kind_free_text": "Coq 8.16.1 models + theorems (coq/), translator-regenerated tables (translate/), extracted OCaml models run against the implementation (harness/)"}],
+                 "kind_free_text": "Coq 8.16.1 models + theorems (coq/), translator-regenerated tables (translate/), extracted OCaml models run against the implementation (harness/)"},
+                {"name": "prodparser-engine", "path": "/verif/check PP",
+                 "serves_properties": ["C01", "C02", "C03", "C05", "C06", "C10"],
+                 "kind_free_text": "auxiliary engine, not a property check: Coq interpreter model of css_parser.prodparser (ProdParser.parse, Sequence/Choice/Prod, stash) with the media/value production trees regenerated as data (translate/prodtrees.py), engine theorems in coq/props/PP.v (pparse_total, pparse_never_crashes, pparse_stash_discipline, media_query_accepts, media_list_spec, value_grammar_faithful_simple ...) and its own correspondence (`./check PP`, evidence/PP.json); exports bridge lemmas for hypotheses of C01/C02/C05/C06 (design_notes/PP.md)"}],
     "checks": checks,
     "not_applicable": na,
     "notes": "See DESIGN.md and CONVENTIONS.md. Every check regenerates Gen/*.v from /repo, rebuilds its Coq cone (full .vo), runs the correspondence and the property-level oracle against /repo's working tree.",
